@@ -52,7 +52,7 @@ int main(void) {
         }
         memset(kb, 0x77, sizeof kb); kb[0] = (unsigned char)key; bkey = kb;
         cmp_calls = cmp_bad_ptr = cmp_bad_ctx = 0;
-        h_n = 0; errno = 0; h_fault_kind = 0;
+        h_n = 0; errno = H_ERRNO_PRE(id); h_fault_kind = 0;
         printf("#%ld\n", id); fflush(stdout);
         if (!sigsetjmp(h_jb, 1)) {
             h_armed = 1; alarm(10);
